@@ -293,6 +293,14 @@ theorem isFuncType_some {ty : Ty} {fn : Ty} (hp : ty.isPtr = false) (h : isFuncT
   · exact Or.inr rfl
   · exact Or.inl ⟨rfl, h.symm⟩
 
+/-- the general form: `isFuncType` looks through pointers -/
+theorem isFuncType_some_deref {ty : Ty} {fn : Ty} (h : isFuncType (some ty) = some fn) :
+    ty.deref.kind = .func ∨ ty.deref.kind = .iface := by
+  simp only [isFuncType] at h
+  cases hk : ty.deref.kind <;> rw [hk] at h <;> simp at h
+  · exact Or.inr rfl
+  · exact Or.inl rfl
+
 theorem Ty.kind_map_iff {t : Ty} : t.kind = .map ↔ ∃ k v, t.core = .map k v := by
   unfold Ty.kind
   cases h : t.core <;> simp
@@ -417,5 +425,37 @@ theorem levelTys_nil_of_le (t : Ty) (n : Nat) (h : levelTys n t = []) : ∀ d, n
     · exact step d t (ih hnd)
     · have : n = d + 1 := by omega
       subst this; exact h
+
+/-! ### map environments -/
+
+/-- the table entries of a map environment with distinct keys: the entry of `n` is the map's value under `n` -/
+theorem entries_get? (entries : List (String × Option Ty)) (hnd : (entries.map (·.1)).Nodup) (n : String) :
+    ∀ acc : Table, (entries.foldl (fun acc kv => acc.set kv.1 { ty := kv.2 }) acc).get? n =
+      match entries.find? (fun kv => kv.1 = n) with
+      | some kv => some { ty := kv.2 }
+      | none => acc.get? n := by
+  induction entries with
+  | nil => intro acc; rfl
+  | cons kv rest ih =>
+    intro acc
+    simp only [List.map_cons, List.nodup_cons] at hnd
+    rw [List.foldl_cons, ih hnd.2, List.find?_cons]
+    by_cases hk : kv.1 = n
+    · have hnone : rest.find? (fun kv => kv.1 = n) = none := by
+        rw [List.find?_eq_none]
+        intro x hx hxn
+        apply hnd.1
+        have : x.1 = kv.1 := by rw [hk]; simpa using hxn
+        rw [← this]
+        exact List.mem_map_of_mem hx
+      simp only [hk, decide_true, hnone, Table.get?_set, if_true]
+    · simp only [hk, decide_false, Table.get?_set, if_false]
+
+/-- the value given to `expr.Env` is a map with a usable string key type and distinct keys -/
+structure MapEnv (e : Env) (t k v : Ty) : Prop where
+  hty : e.ty = some t
+  hcore : t.core = .map k v
+  hkey : stringKeyOk .asIs k = true
+  hnodup : (e.entries.map (·.1)).Nodup
 
 end ExprModel.C16
